@@ -4,7 +4,7 @@ from props import compilecommon as cc
 
 LEVEL = "model_checking"
 MATCHERS = cc.MATCHERS
-CLEAN = ["cl21", "s21", "cl23", "cl231", "cl24"]
+CLEAN = ["cl21", "s21", "cl22", "cl23", "cl231", "cl24"]
 
 
 def run(tier, acc):
@@ -14,7 +14,7 @@ def run(tier, acc):
                 "renders them under each sigil, compiles them through the library entry point without optimisation requested and runs "
                 "the output with clvmr on argument trees fitted to the parameter shape; Trace_Compile evaluates RunProgram on the AST "
                 "and reports every (program, arguments, build) where the source returns v and the build returned anything else. "
-                "cl22 is exercised on a fixed corpus (seed independent). non-trivial = programs for which the source returned a value")
+                "non-trivial = programs for which the source returned a value")
     acc.assumptions = ["Chialisp.tla's strict binding rule: every value it yields is also the value under the lazier rule compiled code follows",
                        "hash/BLS operators and arithmetic wider than 3 bytes are out of model (outcome oom, not compared)",
                        "clvmr is the consensus evaluator"]
@@ -22,9 +22,6 @@ def run(tier, acc):
     res, cs = cc.drive(acc, "core", n // 2, 3, "core", CLEAN)
     acc.violations += cc.records("C01", res, cs, {"bad"})
     res, cs = cc.drive(acc, "full", n, 3, "full", CLEAN)
-    acc.violations += cc.records("C01", res, cs, {"bad"})
-    # cl22: fixed corpus
-    res, cs = cc.drive(acc, "cl22", 120 if tier == "quick" else 600, 3, "core", ["cl22"], fixed_seed=22)
     acc.violations += cc.records("C01", res, cs, {"bad"})
     res, cs = cc.drive(acc, "ladder", 10 if tier == "quick" else 100, 2, "ladder", CLEAN)
     acc.violations += cc.records("C01", res, cs, {"bad"})
